@@ -8,11 +8,135 @@ PID = "C01"
 RULE = ("operands: every function of <=2 variables (all ordered pairs x all 16 connectives in lazy, fully eager and random "
         "consistent partial table form), random functions over 3..9 variables with skipped levels, valid non-canonical "
         "variants; ternary: random triples x random ternary connectives (256 possible) in lazy/eager form; not/ite/named. "
-        "relation: canon(impl result) = model result (semantic equality at any variable count). "
+        "LARGE operands (model side: the proved-equal fast engine, Proofs/ApplyFast.v): a random function of 20 variables "
+        "(>70,000 nodes, canonical array built bottom-up from a random truth table) as right operand, a small non-constant "
+        "left operand over 1..3 of the same variables, named and/or/xor (thorough: all six named, bin and fbin with flips). "
+        "MEDIUM operands: pairs of random functions of 10..13 variables (250..1400 nodes), named/bin. "
+        "relation: canon(impl result) = model result (semantic equality at any variable count); for results above 400 "
+        "nodes, where the list-based canonicaliser is not evaluated, exact array equality with the (proved canonical) model "
+        "result; failing-input oracle at that size: raw evaluation of operands and result on 20,000 random valuations. "
         "non-trivial = no constant operand and the result has >=3 nodes; distinct by sha256 of the step")
 EXHAUSTIVE = {"quick": False, "thorough": False}
 NAMED = {"and": (False, False, False, True), "or": (False, True, True, True), "imp": (True, True, False, True),
          "iff": (True, False, False, True), "xor": (False, True, True, False), "and_not": (False, False, True, False)}
+
+
+# ----------------------------------------------------------------------------- large operands
+def big_bdd_from_tt(nv, ttbytes):
+    """Canonical array (library layout: DFS post-order, high child first, root last) of the function of
+    nv >= 3 variables whose truth table is `ttbytes` (2^nv bits, variable 0 most significant in the index,
+    index j stored at bit 7-(j&7) of byte j>>3).  Iterative: level-by-level unique table bottom-up (the
+    three lowest levels through a per-byte cache), then an explicit-stack DFS for the layout."""
+    assert nv >= 3 and len(ttbytes) == (1 << nv) // 8
+    uniq = {}
+    absn = [None, None]   # abstract id -> (var, lo id, hi id); ids 0/1 are the terminals
+
+    def mk(k, lo, hi):
+        if lo == hi:
+            return lo
+        key = (k, lo, hi)
+        a = uniq.get(key)
+        if a is None:
+            a = len(absn)
+            absn.append(key)
+            uniq[key] = a
+        return a
+
+    bytecache = {}
+
+    def of_byte(bv):
+        r = bytecache.get(bv)
+        if r is None:
+            bits = [(bv >> (7 - j)) & 1 for j in range(8)]
+            l1 = [mk(nv - 1, bits[2 * q], bits[2 * q + 1]) for q in range(4)]
+            l2 = [mk(nv - 2, l1[2 * q], l1[2 * q + 1]) for q in range(2)]
+            r = mk(nv - 3, l2[0], l2[1])
+            bytecache[bv] = r
+        return r
+
+    ids = [of_byte(bv) for bv in ttbytes]
+    for k in range(nv - 4, -1, -1):
+        ids = [mk(k, ids[2 * i], ids[2 * i + 1]) for i in range(1 << k)]
+    root = ids[0]
+    if root == 0:
+        return [(nv, 0, 0)]
+    out = [(nv, 0, 0), (nv, 1, 1)]
+    if root == 1:
+        return out
+    index = {0: 0, 1: 1}
+    stack = [(root, False)]
+    while stack:
+        a, children_done = stack.pop()
+        if a in index:
+            continue
+        k, lo, hi = absn[a]
+        if children_done:
+            index[a] = len(out)
+            out.append((k, index[lo], index[hi]))
+        else:
+            stack.append((a, True))
+            stack.append((lo, False))
+            stack.append((hi, False))   # popped first: high subtree is laid out first
+    return out
+
+
+def big_random_bdd(rng, nv):
+    return big_bdd_from_tt(nv, rng.getrandbits(1 << nv).to_bytes((1 << nv) // 8, "big"))
+
+
+def small_left(rng, nv):
+    """small non-constant function over 1..3 of the nv variables"""
+    while True:
+        k = rng.randint(1, 3)
+        variables = sorted(rng.sample(range(nv), k))
+        a = bdd_from_tt(nv, variables, [rng.random() < 0.5 for _ in range(1 << k)])
+        if len(a) >= 3:
+            return a
+
+
+BIG_NV = 20
+BIG_MIN_NODES = 70000
+
+
+def large_cases(rng, tier):
+    cases = []
+    nrights = 1 if tier == "quick" else 3
+    for _ in range(nrights):
+        b = big_random_bdd(rng, BIG_NV)
+        assert len(b) > BIG_MIN_NODES and is_canonical(b)[0], "large-operand generator is broken"
+        bs = bdd_sx(b)
+        if tier == "quick":
+            names = ["xor", "and"]
+        else:
+            names = list(NAMED)
+        for name in names:
+            cases.append(["named", name, bdd_sx(small_left(rng, BIG_NV)), bs])
+        if tier == "thorough":
+            conns = list(itertools.product([False, True], repeat=4))
+            cases.append(["bin", partial_table(rng, rng.choice(conns)), bdd_sx(small_left(rng, BIG_NV)), bs])
+            cases.append(["fbin", partial_table(rng, rng.choice(conns)), optvar(rng.randrange(BIG_NV)), optvar(rng.randrange(BIG_NV)),
+                          optvar(rng.randrange(BIG_NV)), bdd_sx(small_left(rng, BIG_NV)), bs])
+            # large operand on the left as well
+            cases.append(["named", rng.choice(["or", "xor", "iff"]), bs, bdd_sx(small_left(rng, BIG_NV))])
+    return cases
+
+
+def medium_cases(rng, tier):
+    """both operands random functions of 10..13 variables (roughly 250..1400 nodes): served by the fast engine in
+    the normal run and small enough for the reference engine in the engine cross-check"""
+    cases = []
+    conns = list(itertools.product([False, True], repeat=4))
+    for i in range(6 if tier == "quick" else 60):
+        nv = rng.choice([10, 11, 12, 13])
+        a, b = big_random_bdd(rng, nv), big_random_bdd(rng, nv)
+        k = i % 3
+        if k == 0:
+            cases.append(["named", rng.choice(list(NAMED)), bdd_sx(a), bdd_sx(b)])
+        elif k == 1:
+            cases.append(["bin", partial_table(rng, rng.choice(conns)), bdd_sx(a), bdd_sx(b)])
+        else:
+            cases.append(["named", rng.choice(list(NAMED)), bdd_sx(a), bdd_sx(small_left(rng, nv))])
+    return cases
 
 
 def programs(rng, tier):
@@ -66,7 +190,57 @@ def programs(rng, tier):
     for _ in range(20):
         a, b = random_bdd(rng, 3), random_bdd(rng, 4)
         add(["named", "and", bdd_sx(a), bdd_sx(b)])
+    # large operands last (the vm_compute cross-check samples the first small binary steps)
+    for case in medium_cases(rng, tier) + large_cases(rng, tier):
+        add(case)
     return progs
+
+
+def conn_and_operands(call):
+    """(connective as 4 bools indexed 2*l+r, function applied to the operand valuations) for the binary ops"""
+    if call[0] == "named":
+        return NAMED[call[1]], call[2], call[3], (None, None, None)
+    if call[0] == "bin":
+        return conn_of_table(call[1]), call[2], call[3], (None, None, None)
+    if call[0] == "fbin":
+        fl = tuple(None if x == "N" else int(x[1]) for x in call[2:5])
+        return conn_of_table(call[1]), call[5], call[6], fl
+    return None
+
+
+def oracle_sampled(call, impl, samples=20000):
+    """independent oracle for operands over more than 10 variables: raw evaluation of the operand arrays and of
+    the result array on random valuations (never the model, never the library)"""
+    import random as _random
+    conn, xa, xb, (fa, fb, fo) = conn_and_operands(call)
+    a, b = bdd_nodes(xa), bdd_nodes(xb)
+    nv = a[0][0]
+    if impl == "PANIC":
+        return True, "operator panicked on valid operands over the same variable count"
+    rb = unwrap_bdd(impl)
+    if rb is None:
+        return True, "result is not a Bdd"
+    r = bdd_nodes(rb)
+    rr = _random.Random(int(key_of(call), 16))
+
+    def fl(val, x):
+        if x is None:
+            return val
+        val = list(val)
+        val[x] = not val[x]
+        return val
+
+    for i in range(samples):
+        val = [rr.random() < 0.5 for _ in range(nv)]
+        try:
+            got = raw_eval(r, val)
+        except (EvalDiverges, IndexError) as e:
+            return True, "result array cannot be evaluated: %s" % e
+        base = fl(val, fo)
+        exp = conn[2 * int(raw_eval(a, fl(base, fa))) + int(raw_eval(b, fl(base, fb)))]
+        if got != exp:
+            return True, {"valuation": vbits(val), "expected": exp, "observed": got, "valuations_tried": i + 1}
+    return False, "no failing valuation among %d random valuations" % samples
 
 
 def expected_tt(call):
@@ -106,6 +280,11 @@ def expected_tt(call):
 
 def oracle(call, impl):
     """returns (confirmed, description)"""
+    co = conn_and_operands(call)
+    if co is not None:
+        na, nb = bdd_nodes(co[1]), bdd_nodes(co[2])
+        if na[0][0] == nb[0][0] and na[0][0] > 10:
+            return oracle_sampled(call, impl)
     exp = expected_tt(call)
     if exp is None:
         # mismatch in variable counts: the property does not cover the call (panic expected)
@@ -150,8 +329,10 @@ def judge(st, V):
     ok = semantic_agree(impl, model, aux)
     if not ok:
         confirmed, desc = oracle(call, impl)
-        V.violations.append(violation(PID, st, "canon(impl result) differs from the model result", oracle=desc, confirmed=confirmed,
-                                      relation="canon(impl) = model"))
+        bigres = isinstance(aux, list) and aux and aux[0] == "BIG"
+        V.violations.append(violation(PID, st, "implementation result array differs from the (canonical) model result" if bigres
+                                      else "canon(impl result) differs from the model result", oracle=desc, confirmed=confirmed,
+                                      relation="impl = model (exact; result above 400 nodes)" if bigres else "canon(impl) = model"))
         return
     rb = unwrap_bdd(impl)
     bdds = [bdd_nodes(x) for x in call[1:] if is_bdd(x)]
